@@ -6,6 +6,7 @@ from ..term import Terms, show, walk, is_call, alts, ok_payloads
 from ..guards import guards, strip_not
 from ..rules_e1 import run_e1
 from ..rules_e2 import run_e2
+from ..rules_contract import run_contracts
 
 UNITS = ["years", "months", "weeks", "days", "hours", "minutes", "seconds", "milliseconds", "microseconds", "nanoseconds"]
 SELF = ("param", 1, "self")
@@ -30,6 +31,8 @@ def run(ctx, rep):
                 out.append(k)
         return sorted(set(out))
     run_e1(ctx, rep, roots, min_roots=20, min_sites=150)
+    # |nanos| < 1s is established at every construction of a SignedDuration (seconds and nanoseconds of one duration)
+    run_contracts(ctx, rep, select=lambda f: f.file in ("src/signed_duration.rs", "src/duration.rs", "src/span.rs"), floor=10)
     if os.path.exists(os.path.join(os.path.dirname(__file__), "..", "..", "reviewed", "ranged.tsv")):
         run_e2(ctx, rep, select=lambda f: f.file in ("src/signed_duration.rs", "src/duration.rs") or
                (f.file == "src/span.rs" and f.path.startswith("span::Span::")), floor=100)
